@@ -175,7 +175,7 @@ def rec_diff(items, opts):
     """pipeline recorder: items = [id, snaps, version, style]"""
     out = []
     for tid, snaps, ver, style in items:
-        nl = '\r\n' if style % 3 == 1 else '\n'
+        nl = '\r\n' if style % 4 == 1 else ('\r' if style % 4 == 3 else '\n')
         unit = '  ' if style % 5 == 2 else '    '
         tr, module, texts = replay_history(tid, snaps, ver, nl, unit)
         tr['origin'] = 'edits'
@@ -193,7 +193,7 @@ def rec_final_tree(items, opts):
     from .common import cps
     out = []
     for tid, snaps, ver, style in items:
-        nl = '\r\n' if style % 3 == 1 else '\n'
+        nl = '\r\n' if style % 4 == 1 else ('\r' if style % 4 == 3 else '\n')
         unit = '  ' if style % 5 == 2 else '    '
         tr = {'id': tid, 'ver': ver, 'origin': 'edits', 'inp': [], 'nodes': [], 'posq': [], 'raised': False, 'exc': '',
               'nontrivial': True, 'aux': {'sraised': False, 'sval': [], 'ss': [0, 0], 'sdump': 0, 'rdump': 0, 'stt': ''}}
